@@ -36,6 +36,7 @@ var (
 	fSrcChans  = flag.Int("src-channels", 4, "child: source channel num")
 	fDebugLog  = flag.Bool("debug-log", false, "child: log level debug")
 	fPackMaxKB = flag.Int("pack-maxkb", 0, "child: packer MaxMsgSize in KB")
+	fTTIntv    = flag.Int("tt-interval", 0, "child: source TimeTickInterval in ms (0: default)")
 )
 
 func killSelf() {
@@ -68,6 +69,7 @@ func childMain() {
 			return sysboot.WrapStore(f, observer, killSelf)
 		},
 		SourceChannels: *fSrcChans,
+		TTIntervalMs:   *fTTIntv,
 		Packer:         msgpacker.PackerConfig{MaxCount: *fPackCount, TimerInterval: *fPackTimer, MaxMsgSize: *fPackMaxKB},
 	})
 	if err != nil {
